@@ -61,6 +61,9 @@ CHECKS = {
  "C19": dict(technique="deviation-bounded exhaustive enumeration of read segmentations (0, 1, 2 short reads; one byte per read) of whole sessions through the real FramedRead/LSCodec inside run(), Pending reads as scheduler choices under the bounded-DFS scheduler, differential oracle against the unsplit run; two-way splits replayed against the release binary",
    text="six sessions (2..5-digit body lengths, non-ASCII document and non-ASCII server output, a frame larger than the initial read buffer, many small frames): every two-way split at every byte, three-way splits (all pairs for the minimal session, windowed otherwise), one byte per read: responses in order and notifications in order equal the unsplit run, every emitted frame has an exact Content-Length and a JSON body; minimal session: every two-way split under all schedules with <= 1/2 preemptions with a client task delivering the chunks; conformance: two-way splits against the binary with pipe-drain synchronised writes",
    note="a read returns at most one written chunk (shim stdin); OS pipe behaviour trusted in the process runs", ref="4/C19"),
+ "C20": dict(technique="stateless exploration of all schedules (preemption-bounded DFS for short scenarios, delay-bounded DFS for long bursts) of the real run() with its reader/broker/responder tasks (tokio shim + shuttle), for every scenario of a bounded operation alphabet; sequential specification with a differential answer oracle; replay against the release binary",
+   text="all scenarios of <= 3/4 operations over {open, change, close, request} x URIs (two differing only in scheme) x texts x request kinds, delivered fully pipelined: under every schedule with <= 2/3 preemptions (one less for the longest scenarios), with the real channel capacities and capacities clamped to 1 and 2, with and without the diagnostics capability: responses in request order and equal to the implementation's fresh single-document answer for the model text (read-your-writes, isolation, closed documents forgotten), last publishDiagnostics per URI equals the diagnostics of the final text, none without capability, no deadlock; bursts of 40..200 change+request pairs under delay-bounded schedules with bounded stdout; scenarios and bursts of up to 250 pairs replayed against the binary",
+   note="interleavings at channel/stdio operations (complete while tasks share only channels - audited on every run); capacity clamping abstracts the two channel constants; long bursts are delay-bounded, not preemption-bounded (the non-preemptive choices alone are exponentially many)", ref="4/C20"),
 }
 ALL = ["C%02d" % i for i in range(1, 21)]
 m = {
